@@ -16,7 +16,7 @@ bind: failpoint family: re-definitions of every kind of definition with ONE fail
       definition itself failing in the middle or refused, host macros, the host's Apply; catalogues of special
       forms with improper lists and of value-less forms in value positions: no panic, no partial effect).
 """
-import collections, json, os
+import collections, concurrent.futures, json, os
 import vlib, flow, semflow
 
 PROP = "C05"
@@ -28,30 +28,66 @@ def _devs():
     return ",".join(k["id"] for k in vlib.known_findings(PROP)) or "none"
 
 
+def _validate_together(jobs):
+    """The three trace validations are independent TLC runs: run them side by side (the machine has the
+    cores; a TLC start-up costs more than these small validations) and hand each result to flow.validate,
+    which asks vlib.validate_trace for it. jobs: (module, cfg, trace, env, timeout)."""
+    real = vlib.validate_trace
+    results = {}
+    with concurrent.futures.ThreadPoolExecutor(len(jobs)) as ex:
+        futs = {(m, t): ex.submit(real, m, c, t, env=e, timeout=to, workers=max(4, vlib.NCPU // 2)) for (m, c, t, e, to) in jobs}
+        for k, f in futs.items():
+            try:
+                results[k] = f.result()
+            except Exception as exc:       # re-raised where flow.validate asks for the result
+                results[k] = exc
+
+    def cached(module, cfg, trace, env=None, workers=None, timeout=1500, deque=False):
+        r = results.pop((module, trace), None)
+        if r is None:
+            return real(module, cfg, trace, env=env, workers=workers, timeout=timeout, deque=deque)
+        if isinstance(r, Exception):
+            raise r
+        return r
+    return real, cached
+
+
 def run():
     out = flow.Outcome(PROP)
     zv = vlib.build_zv()
-    # the prefix law and the compile-then-run model with the macro journal (design audit)
-    runs = [{"module": "MCFailPoint.tla", "cfg": "MCFailPointQuick.cfg", "timeout": 900}]
     if vlib.tier() == "thorough":
-        runs = [{"module": "MCFailPoint.tla", "cfg": "MCFailPoint.cfg", "timeout": 1800},
-                {"module": "MCFailPoint.tla", "cfg": "MCFailPointNone.cfg", "expect": "violation", "timeout": 900}]
-    flow.mc_runs(out, runs)
+        # the prefix law and the compile-then-run model with the macro journal, larger instances; without
+        # the journal TLC must find the text <<fail, mac>> (the quick tier audits a small instance in an
+        # ASSUME of FailPointTrace with every validation run)
+        flow.mc_runs(out, [{"module": "MCFailPoint.tla", "cfg": "MCFailPoint.cfg", "timeout": 1800},
+                           {"module": "MCFailPoint.tla", "cfg": "MCFailPointNone.cfg", "expect": "violation", "timeout": 900}])
     trace = os.path.join(vlib.scratch(), "fault.ndjson")
     vlib.run_zv(zv, "fault", [], trace)
-    cases, v = flow.validate(out, "fault", "FaultTrace.tla", "FaultTrace.cfg", trace, zv, timeout=3000)
-    # a text rejected before it runs is a stuttering step, for every kind of definition (NoopTrace)
     ntrace = os.path.join(vlib.scratch(), "noop.ndjson")
     vlib.run_zv(zv, "noop", [], ntrace)
-    ncases, nv = flow.validate(out, "noop", "NoopTrace.tla", "NoopTrace.cfg", ntrace, zv, env={"VERIF_DEVS": _devs()})
+    ptrace = os.path.join(vlib.scratch(), "failpoint.ndjson")
+    vlib.run_zv(zv, "failpoint", [], ptrace)
+    denv = {"VERIF_DEVS": _devs()}
+    real, cached = _validate_together([("FaultTrace.tla", "FaultTrace.cfg", trace, None, 3000),
+                                       ("NoopTrace.tla", "NoopTrace.cfg", ntrace, denv, 1500),
+                                       ("FailPointTrace.tla", "FailPointTrace.cfg", ptrace, denv, 1500)])
+    vlib.validate_trace = cached
+    try:
+        return _judge(out, zv, trace, ntrace, ptrace, denv)
+    finally:
+        vlib.validate_trace = real
+
+
+def _judge(out, zv, trace, ntrace, ptrace, denv):
+    cases, v = flow.validate(out, "fault", "FaultTrace.tla", "FaultTrace.cfg", trace, zv, timeout=3000)
+    # a text rejected before it runs is a stuttering step, for every kind of definition (NoopTrace)
+    ncases, nv = flow.validate(out, "noop", "NoopTrace.tla", "NoopTrace.cfg", ntrace, zv, env=denv)
     out.extra["rejected_text_cases"] = len(ncases)
     out.extra["rejected_text_by_definition_kind"] = dict(collections.Counter(c["def"] for c in ncases.values()))
     out.extra["rejected_text_by_variant"] = dict(collections.Counter(c["variant"] for c in ncases.values()))
     out.extra["rejected_text_verdicts"] = dict(collections.Counter(nv[i][0] for i in ncases))
     # failure at a known point: the state is that of the prefix (FailPointTrace)
-    ptrace = os.path.join(vlib.scratch(), "failpoint.ndjson")
-    vlib.run_zv(zv, "failpoint", [], ptrace)
-    pcases, pv = flow.validate(out, "failpoint", "FailPointTrace.tla", "FailPointTrace.cfg", ptrace, zv, env={"VERIF_DEVS": _devs()})
+    pcases, pv = flow.validate(out, "failpoint", "FailPointTrace.tla", "FailPointTrace.cfg", ptrace, zv, env=denv)
     pjudged = [i for i in pcases if pv[i][0] in ("ok", "bad") or pv[i][0].startswith("known:")]
     if len(pjudged) < len(pcases) // 2:
         raise vlib.Inconclusive("only %d of %d failpoint cases judged" % (len(pjudged), len(pcases)))
